@@ -168,10 +168,10 @@ class Region(object):
         area : float
             The area of the region.
         """
-        area = 0
-        for d in range(1, self.maxdepth+1):
-            area += len(self.pixeldict[d]) * \
-                hp.nside2pixarea(2**d, degrees=degrees)
+        # count the pixels of the flattened region so that sky which is
+        # (temporarily) stored at more than one level is only counted once
+        area = len(self.get_demoted()) * \
+            hp.nside2pixarea(2**self.maxdepth, degrees=degrees)
         return area
 
     def get_demoted(self):
